@@ -113,8 +113,11 @@ def writers_in_propagation():
                     x = ("effect", 9, ("body", None, [x], ("get", 1)))                                  # X re-created by its owner
                 prog = [("signal", 1, ("lit", 0)), ("signal", 2, ("lit", 0)), w, x,
                         ("effect", 5, ("body", None, [], ("get", 4) if xk != "effect" and how != "nested" else ("lit", 0)))]
-                prog += [("set", 1, ("lit", v)) for v in (1, 2, 5, 3)]
-                out.append(prog)
+                out.append(prog + [("set", 1, ("lit", v)) for v in (1, 2, 5, 3)])
+                # the same with the source written inside a batch: W then writes while the batch is being flushed
+                out.append(prog + [("batch", [("set", 1, ("lit", v))]) for v in (1, 2, 5, 3)])
+                out.append(prog + [("signal", 8, ("lit", 0)), ("batch", [("set", 8, ("lit", 1)), ("set", 1, ("lit", 4))]),
+                                   ("batch", [("set", 8, ("lit", 2))]), ("set", 1, ("lit", 2))])
     return out
 
 
